@@ -1149,3 +1149,33 @@ Proof.
     try (rewrite layer_orientation by lia; reflexivity).
   apply hex_layer_orientation; lia.
 Qed.
+
+(* ------------------------------------------------------------------ histories: the drawn table *)
+Lemma exec_snoc sp pt st ops o :
+  exec sp pt st (ops ++ [o]) = fst (step sp pt (exec sp pt st ops) o).
+Proof. unfold exec. rewrite fold_left_app. reflexivity. Qed.
+
+(* the (kind, location) table that the drawing shows, after ANY history extended by one operation *)
+Definition lookup_after (sp : space) (st : state) (o : op) (id' : Z) : option (Z * option coord) :=
+  if accepted sp st o then
+    match o with
+    | Place id k x y => if id' =? id then Some (k, Some (addr_coord sp x y)) else lookup id' st
+    | Move id x y => if id' =? id
+                     then option_map (fun i => (fst i, Some (addr_coord sp x y))) (lookup id st)
+                     else lookup id' st
+    | Remove id => if id' =? id then None else lookup id' st
+    | SetKind id k => if id' =? id then option_map (fun i => (k, snd i)) (lookup id st) else lookup id' st
+    | _ => lookup id' st
+    end
+  else lookup id' st.
+
+Lemma history_lookup c ops o id' :
+  let sp := c_space c in let pt := c_portrayal c in
+  lookup id' (exec sp pt (init_state c) (ops ++ [o]))
+  = lookup_after sp (exec sp pt (init_state c) ops) o id'.
+Proof.
+  intros sp pt. rewrite exec_snoc. unfold lookup_after.
+  destruct (accepted sp (exec sp pt (init_state c) ops) o) eqn:E.
+  - apply step_lookup. exact E.
+  - unfold lookup. rewrite (step_rejected sp pt _ o E). reflexivity.
+Qed.
